@@ -1365,22 +1365,19 @@ func marshalDate(info TypeInfo, value interface{}) ([]byte, error) {
 		return nil, nil
 	case int64:
 		timestamp = v
-		x := timestamp/millisecondsInADay + int64(1<<31)
-		return encInt(int32(x)), nil
+		return encDate(timestamp), nil
 	case time.Time:
 		if v.IsZero() {
 			return []byte{}, nil
 		}
 		timestamp = int64(v.UTC().Unix()*1e3) + int64(v.UTC().Nanosecond()/1e6)
-		x := timestamp/millisecondsInADay + int64(1<<31)
-		return encInt(int32(x)), nil
+		return encDate(timestamp), nil
 	case *time.Time:
 		if v.IsZero() {
 			return []byte{}, nil
 		}
 		timestamp = int64(v.UTC().Unix()*1e3) + int64(v.UTC().Nanosecond()/1e6)
-		x := timestamp/millisecondsInADay + int64(1<<31)
-		return encInt(int32(x)), nil
+		return encDate(timestamp), nil
 	case string:
 		if v == "" {
 			return []byte{}, nil
@@ -1390,14 +1387,24 @@ func marshalDate(info TypeInfo, value interface{}) ([]byte, error) {
 			return nil, marshalErrorf("can not marshal %T into %s, date layout must be '2006-01-02'", value, info)
 		}
 		timestamp = int64(t.UTC().Unix()*1e3) + int64(t.UTC().Nanosecond()/1e6)
-		x := timestamp/millisecondsInADay + int64(1<<31)
-		return encInt(int32(x)), nil
+		return encDate(timestamp), nil
 	}
 
 	if value == nil {
 		return nil, nil
 	}
 	return nil, marshalErrorf("can not marshal %T into %s", value, info)
+}
+
+// encDate encodes the day that holds the instant given in milliseconds since the
+// epoch. Days are counted with floor, so an instant before 1970 belongs to the day
+// it is in, not to the following one.
+func encDate(timestamp int64) []byte {
+	days := timestamp / millisecondsInADay
+	if timestamp%millisecondsInADay < 0 {
+		days--
+	}
+	return encInt(int32(days + int64(1<<31)))
 }
 
 func unmarshalDate(info TypeInfo, data []byte, value interface{}) error {
